@@ -153,6 +153,23 @@ func racUF0(name string, a ...*big.Int) *big.Int {
 		}
 		z.SetString(x, 10)
 		return z
+	case "uf_ntext":
+		x, ok := racStrTab[a[0].Uint64()]
+		if !ok || a[3].Sign() < 0 || !a[2].IsInt64() || a[2].Int64() < 0 || a[2].Int64() > 1<<20 || !a[1].IsInt64() {
+			return z
+		}
+		want := strings.Repeat("0", int(a[2].Int64())) + a[3].Text(10)
+		switch a[1].Int64() {
+		case 0:
+		case '+', '-':
+			want = string(rune(a[1].Int64())) + want
+		default:
+			return z
+		}
+		if x == want {
+			return z.SetInt64(1)
+		}
+		return z
 	case "uf_utext", "uf_stext":
 		x, ok := racStrTab[a[0].Uint64()]
 		if !ok || a[2].Sign() < 0 {
